@@ -77,6 +77,9 @@ NothingElse(e) == /\ ~e.started /\ Len(e.rejects) = 0 /\ Len(e.completed) = 0
 Refused(e) == CtorNone(e) /\ NothingElse(e)
 
 IsECDSA(e) == e.proto \in {"dkls23-bbot", "dkls23-softspoken", "lindell17", "cggmp21"}
+\* DKLs23 (dkls23.Aggregate) and Lindell17 (primary's Round5) document that they normalise the signature to the low-s form;
+\* CGGMP21's aggregators do not (about half of its signatures have s > n/2): logged, not required
+NormalisesS(e) == e.proto \in {"dkls23-bbot", "dkls23-softspoken", "lindell17"}
 \* who outputs a signature: DKLs23 / Boldyreva: every party aggregates; Lindell17: the primary; Lindell22: the plain aggregator
 \* and (round API) every cosigning aggregator; CGGMP21: every cosigning aggregator and the plain one
 OutCount(e) ==
@@ -100,7 +103,8 @@ Verifies(e) ==
   /\ e.verify_lib /\ e.verify_indep                       \* both verifiers accept the signed message
   /\ ~e.verify_other_lib /\ ~e.verify_other_indep         \* and reject another one
   /\ e.pkIsXG                                             \* under the key whose logarithm the shares reconstruct
-  /\ IsECDSA(e) => e.verify_std /\ e.recovered_pk_ok /\ e.recovered_lib_ok /\ e.low_s
+  /\ IsECDSA(e) => e.verify_std /\ e.recovered_pk_ok /\ e.recovered_lib_ok
+  /\ NormalisesS(e) => e.low_s
   /\ e.proto = "bls" => e.popOK /\ SubAggOK(e)
 \* a message outside the scheme's domain: constructors accept, every cosigner refuses to sign, no output
 MsgRefused(e) == /\ CtorAll(e) /\ e.started /\ Len(e.rejects) = Len(e.quorum) /\ Len(e.completed) = 0
